@@ -361,3 +361,74 @@ func (e *Engine) chanClose(c *chanObj) {
 	c.closed = true
 	e.schedPoint()
 }
+
+// selectOp implements select: among the ready cases one is taken (every ready case is
+// explored when nondeterministic scheduling is on, the first otherwise); with no ready case a
+// non-blocking select takes default, a blocking one yields until a case is ready.
+func (e *Engine) selectOp(fr *frame, in *ssa.Select) Value {
+	type st struct {
+		c    *chanObj
+		send Value
+		recv bool
+	}
+	states := make([]st, len(in.States))
+	for i, s := range in.States {
+		c, _ := fr.get(e, s.Chan).(*chanObj)
+		states[i] = st{c: c, recv: s.Dir == types.RecvOnly}
+		if s.Send != nil {
+			states[i].send = fr.get(e, s.Send)
+		}
+	}
+	ready := func() []int {
+		var r []int
+		for i, s := range states {
+			if s.c == nil {
+				continue
+			}
+			if s.recv {
+				if len(s.c.buf) > 0 || s.c.closed {
+					r = append(r, i)
+				}
+			} else if s.c.closed || len(s.c.buf) < s.c.cap {
+				r = append(r, i)
+			}
+		}
+		return r
+	}
+	chosen := -1
+	for {
+		r := ready()
+		if len(r) > 0 {
+			k := 0
+			if sc, _ := e.hostState["sched"].(*schedState); sc != nil && sc.nondet && len(r) > 1 {
+				k = e.chooseFree(len(r))
+			}
+			chosen = r[k]
+			break
+		}
+		if !in.Blocking {
+			break
+		}
+		if !e.yield() {
+			e.abort(abortEngine, "deadlock: blocking select with no ready case and no runnable goroutine")
+		}
+	}
+	res := tuple{int64(chosen), false}
+	for i, s := range in.States {
+		if s.Dir != types.RecvOnly {
+			continue
+		}
+		et := under(s.Chan.Type()).(*types.Chan).Elem()
+		if i == chosen {
+			v, ok := e.chanRecv(states[i].c, et)
+			res[1] = ok
+			res = append(res, v)
+		} else {
+			res = append(res, e.zero(et))
+		}
+	}
+	if chosen >= 0 && !states[chosen].recv {
+		e.chanSend(states[chosen].c, states[chosen].send)
+	}
+	return res
+}
